@@ -81,7 +81,7 @@ def run_deck(ctx, stream, d, args, rng, npts=120, with_comp=True, check_wf=True,
                 extra['bc'] = 'dangling'
             fails.append(fail('violation', 'written file is not structurally valid: ' + rep[:800],
                               dict(sig0, **extra), replay))
-    pts = G.sample_points(rng, npts)
+    pts = G.sample_points(rng, npts) + list(getattr(d, 'probe_points', None) or [])     # a deck may name points of its own
     agree, skip, mm = monitor(ctx, d, res.t4, pts, with_comp=with_comp)
     if mm:
         cls = 'point-mismatch'
